@@ -53,9 +53,9 @@ func c17File(layout int, today ref.Date, h12 bool, indent string) string {
 	var sb strings.Builder
 	sb.WriteString(d(-9) + "\n" + indent + tm(480) + " - " + tm(600) + " older\n" + indent + "1h\n\n")
 	// (the open range is not always the record's last entry: something tracked later stands behind it)
-	yOpen := d(-1) + "\n" + indent + tm(420) + " - " + tm(480) + " early\n" + indent + tm(1200) + " - ? night shift #late\n" + indent + tm(600) + " - " + tm(615) + " tracked afterwards\n\n"
+	yOpen := d(-1) + "\n" + indent + tm(420) + " - " + tm(480) + " early\n" + indent + tm(1200) + " - ? night shift café #late\n" + indent + tm(600) + " - " + tm(615) + " tracked afterwards\n\n"
 	yClosed := d(-1) + "\n" + indent + tm(420) + " - " + tm(480) + " early\n\n"
-	tOpen := d(0) + "\nsummary of today\n" + indent + tm(5) + " - ? since midnight #t\n" + indent + tm(1) + " - " + tm(3) + " tracked afterwards\n" + indent + "-2m\n"
+	tOpen := d(0) + "\nsummary of today\n" + indent + tm(5) + " - ? since midnight café #t\n" + indent + tm(1) + " - " + tm(3) + " tracked afterwards\n" + indent + "-2m\n"
 	tClosed := d(0) + "\n" + indent + tm(5) + " - " + tm(6) + " done\n"
 	switch layout {
 	case 0:
@@ -174,12 +174,23 @@ func c17Cell(e *core.Env, r *core.Rand, file string, today ref.Date, minute, rou
 		cmd.Summary = []string{"task"}
 	}
 	cellName := fmt.Sprintf("%s %02d:%02d round=%d/%d sel=%s layout=%d 12h=%v %s", today, minute/60, minute%60, roundFlag, roundCfg, sel, layout, h12, kind)
-	if err := os.WriteFile(file, []byte(text), 0644); err != nil {
+	// one cell in six: the file is in an 8-bit encoding (the é of the open range's summary is the single byte 0xE9, which is
+	// not UTF-8); the command must do the same - the byte is mapped back before the result is compared with the model
+	latin1 := core.Hash64("c17-latin1", cellName)%6 == 0
+	disk := text
+	if latin1 {
+		disk = strings.ReplaceAll(text, "café", "caf\xe9")
+		e.Count("cells_on_a_file_with_non_utf8_bytes", 1)
+	}
+	if err := os.WriteFile(file, []byte(disk), 0644); err != nil {
 		panic(err)
 	}
 	out := applyModel(rec.Doc, cmd, env)
 	res := runMutating(e, cmd, env, file, false)
 	after := readFile(file)
+	if latin1 {
+		after = strings.ReplaceAll(after, "caf\xe9", "café")
+	}
 	w := map[string]any{"cell": cellName, "file_before": text, "file_after": after, "command": cmd.String(), "clock": env.Clock().Format("2006-01-02T15:04:05"), "default_rounding": roundCfg}
 	if res.Panic != nil {
 		e.Violation("command-panic: "+res.Panic.Site(), fmt.Sprintf("%s: `klog %s` panicked: %s", cellName, cmd.String(), res.Panic.Value), w)
